@@ -387,7 +387,8 @@ def run_harness(h, features, logdir):
             return res
         # counterexample -> concrete playback -> native replay
         cmd2 = kani_cmd(h, slot, features, ["-Z", "concrete-playback", "--concrete-playback=print"])
-        rc2, out2, dt2, to2 = run_cmd(cmd2, KANI_DIR, h.timeout * 2, h.mem, log=log + ".cex")
+        # the counterexample run keeps the trace in memory: give it twice the harness budget (it only runs after a failure)
+        rc2, out2, dt2, to2 = run_cmd(cmd2, KANI_DIR, h.timeout * 2, min(48, (h.mem or 16) * 2), log=log + ".cex")
         tests = extract_playback_tests(out2)
         # prefer assertion / panic checks of the harness, keep at most 4
         tests = [t for t in tests if "unwinding" not in t["desc"]][:4]
